@@ -1537,6 +1537,13 @@ func (env *SpecEnv) evalCall(x *ast.CallExpr) Val {
 	case "catAll":
 		v := arg(0)
 		return intVal(env.cur().catAll(v))
+	case "strof":
+		// strof(b): the string string(b) of a byte slice b (what the conversion yields in the code)
+		v := arg(0)
+		st := env.cur()
+		c := st.bytesOf(v)
+		f := st.ctx.declareFun("bytes2str", []string{SInt}, SInt)
+		return intVal(Term{fmt.Sprintf("(%s %s)", f, c.S), SInt})
 	case "str":
 		// string id of a string-typed value (identity on the leaf)
 		return intVal(arg(0).term())
